@@ -836,6 +836,7 @@ def run(ctx):
     ctx.regen(sys.modules[__name__])
     b = ctx.build_props(extra_targets=["theories/C08/Run.vo"])
     ctx.hygiene(["Lib", "C08"])
+    ctx.log("built")
 
     cases = []
     cdir = os.path.join(core.ROOT, "corpus", "C08")
@@ -847,6 +848,7 @@ def run(ctx):
     cases += [finish_case(ctx.rng, gen_volume(ctx.rng, ctx.tier)) for _ in range(n_vol)]
     cases += [finish_case(ctx.rng, gen_polyline(ctx.rng, ctx.tier)) for _ in range(n_line)]
     obs = run_impl_cases(cases)
+    ctx.log("implementation ran on %d cases" % len(cases))
 
     for c in cases:
         ctx.count("kind=" + c["kind"])
@@ -873,6 +875,7 @@ def run(ctx):
     ctx.obligation("oracle: every returned matrix satisfies the identities C08 states (independent numpy assembly)",
                    "oracle-on-implementation", True, "%d failing (case, clause) pairs" % len(fails))
 
+    ctx.log("oracle done: %d failing clauses" % len(fails))
     # 2. kernel-checked correspondence
     bads = {}
     if b["model_ok"]:
@@ -919,6 +922,7 @@ def run(ctx):
     else:
         ctx.obligation("correspondence batches", "correspondence", False, "model does not compile")
 
+    ctx.log("correspondence done")
     # 3. verdicts
     reported = set()
     for idx, key, msg in fails:
